@@ -6,7 +6,7 @@ J=3
 if [ "$1" = "-j" ]; then J=$2; shift 2; fi
 cd "$(dirname "$(readlink -f "$0")")/.."
 names=("$@")
-[ ${#names[@]} -eq 0 ] && names=($(ls seeded | grep -v discarded))
+[ ${#names[@]} -eq 0 ] && names=($(ls seeded | grep -v "discarded\|obsolete"))
 OUT=$(mktemp -d /tmp/regress-XXXXXX)
 one() {
   n=$1; OUT=$2
